@@ -500,6 +500,8 @@ func ruleNilProducer(p *Prog, l *Ledger, tier string) {
 			key := l.Key(rule, fname, what, descOf(v))
 			if a.nonNil(fn, v, a.at[ins]) {
 				l.Prove(rule, fname, key, p.Pos(ins.Pos()), "stored element is non-nil")
+			} else if st, ok := ins.(*ssa.Store); ok && insertPlaceholder(st) {
+				l.Prove(rule, fname, key, p.Pos(ins.Pos()), "nil placeholder of the insert idiom append(X, nil); copy(X[i+1:], X[i:]); X[i] = v: overwritten before the list is read")
 			} else {
 				l.Fail(rule, fname, key, p.Pos(ins.Pos()), fmt.Sprintf("%s: possibly-nil %s is stored as a %s; readers of the container assume non-nil elements", fname, descOf(v), what))
 			}
@@ -606,4 +608,109 @@ func ruleNilDerefIn(names ...string) func(p *Prog, l *Ledger, tier string) {
 		}
 		l.Min(rule, n, 1)
 	}
+}
+
+// insertPlaceholder: st stores nil into the one-element argument array of
+//
+//	X = append(X, nil); copy(X[i+1:], X[i:]); X[i] = v
+//
+// (the insert-at-i idiom).  The nil never survives: for i < old length copy shifts an old element
+// into the last slot, for i == old length X[i] = v overwrites it, and for i beyond that X[i]
+// panics before anything is observed (E2 decides that).  All three statements are in one block
+// and X is the same field of the same base throughout.
+func insertPlaceholder(st *ssa.Store) bool {
+	c, ok := st.Val.(*ssa.Const)
+	if !ok || c.Value != nil {
+		return false
+	}
+	ia, ok := st.Addr.(*ssa.IndexAddr)
+	if !ok {
+		return false
+	}
+	arr, ok := ia.X.(*ssa.Alloc)
+	if !ok {
+		return false
+	}
+	// arr[:] passed to append whose result is stored to a field
+	var target *ssa.Store
+	for _, r := range *arr.Referrers() {
+		sl, ok := r.(*ssa.Slice)
+		if !ok {
+			continue
+		}
+		for _, r2 := range *sl.Referrers() {
+			call, ok := r2.(*ssa.Call)
+			if !ok {
+				continue
+			}
+			if bi, ok := call.Call.Value.(*ssa.Builtin); !ok || bi.Name() != "append" || call.Call.Args[1] != ssa.Value(sl) {
+				continue
+			}
+			for _, r3 := range *call.Referrers() {
+				if s2, ok := r3.(*ssa.Store); ok && s2.Val == ssa.Value(call) && s2.Block() == st.Block() {
+					target = s2
+				}
+			}
+		}
+	}
+	if target == nil {
+		return false
+	}
+	tfa, ok := target.Addr.(*ssa.FieldAddr)
+	if !ok {
+		return false
+	}
+	sameLoc := func(v ssa.Value) bool { // v is a load of the same field of the same base
+		u, ok := v.(*ssa.UnOp)
+		if !ok || u.Op != token.MUL {
+			return false
+		}
+		fa, ok := u.X.(*ssa.FieldAddr)
+		return ok && fa.X == tfa.X && fa.Field == tfa.Field
+	}
+	var idx ssa.Value
+	copied, stored := false, false
+	after := false
+	for _, ins := range st.Block().Instrs {
+		if ins == ssa.Instruction(target) {
+			after = true
+			continue
+		}
+		if !after {
+			continue
+		}
+		switch x := ins.(type) {
+		case *ssa.Call:
+			bi, ok := x.Call.Value.(*ssa.Builtin)
+			if !ok || bi.Name() != "copy" {
+				continue
+			}
+			dst, ok1 := x.Call.Args[0].(*ssa.Slice)
+			src, ok2 := x.Call.Args[1].(*ssa.Slice)
+			if !ok1 || !ok2 || !sameLoc(dst.X) || !sameLoc(src.X) || dst.High != nil || src.High != nil || src.Low == nil {
+				continue
+			}
+			bo, ok := dst.Low.(*ssa.BinOp)
+			if !ok || bo.Op != token.ADD || bo.X != src.Low {
+				continue
+			}
+			if one, ok := constInt(bo.Y); !ok || one != 1 {
+				continue
+			}
+			idx, copied = src.Low, true
+		case *ssa.Store:
+			if x == target {
+				continue
+			}
+			if fa, ok := x.Addr.(*ssa.FieldAddr); ok && fa.X == tfa.X && fa.Field == tfa.Field {
+				return false // the list is reassigned in between
+			}
+			if ia2, ok := x.Addr.(*ssa.IndexAddr); ok && copied && sameLoc(ia2.X) && ia2.Index == idx {
+				if cc, isConst := x.Val.(*ssa.Const); !isConst || cc.Value != nil {
+					stored = true
+				}
+			}
+		}
+	}
+	return copied && stored
 }
